@@ -59,6 +59,13 @@ def direct_case(ctx, i, rng):
         p, l = gen.pose(rng, k, maxexp)
         labels |= l
         ops.append(p)
+    if rng.random() < 0.2:
+        # operands that coincide in part (equal values in distinct objects)
+        ops[1], how = gen.coincide(rng, k, ops[0], ops[1])
+        ctx.count("class:operands_coincide:" + how)
+        if rng.random() < 0.5:
+            ops[2], how = gen.coincide(rng, k, ops[int(rng.integers(2))], ops[2])
+            ctx.count("class:operands_coincide:" + how)
     A, B, C = [M.mkpose(k, p) for p in ops]
     ctx.count("class:kind:" + k)
     for lab in labels:
